@@ -30,7 +30,9 @@ def main():
         out = {"error": "%s: %s" % (name, e), "trace": traceback.format_exc()[-1500:]}
         if name == "ReplayAssumptionFailed":
             out["assumption_failed"] = True
-    print("@@REPLAY@@ " + json.dumps(out, sort_keys=True))
+    # (written to file descriptor 1 directly: the code under test may have re-pointed sys.stdout)
+    sys.stdout.flush()
+    os.write(1, ("\n@@REPLAY@@ " + json.dumps(out, sort_keys=True) + "\n").encode())
 
 
 if __name__ == "__main__":
